@@ -34,6 +34,8 @@ type failure struct {
 	Key    string
 	Detail string
 	Case   any
+	// Post, if set, is called once on the final (rapid-shrunk) failure to reduce it further.
+	Post func() *failure
 }
 
 // rapidLoop runs prop for up to total cases in chunks, each chunk a
@@ -87,6 +89,11 @@ func rapidLoop(t *testing.T, rec *sb.Rec, name string, total, chunk int, deadlin
 		})
 		done += n
 		if !ok && last != nil {
+			if last.Post != nil {
+				if red := last.Post(); red != nil {
+					last = red
+				}
+			}
 			rec.Fail(last.Key, last.Detail, last.Case)
 			excluded[last.Key] = true
 			if len(excluded) >= 8 {
